@@ -402,6 +402,43 @@ func runC15(c *Ctx) {
 		// kid "ok" means header kid = k<signWith>; whether that kid maps to the signing key depends on the published set
 		emit(ts, why)
 	}
+	// the same token before and after its expiry (and before and after its not-before time): validity is judged at
+	// every announce, an earlier acceptance or refusal does not stick
+	{
+		present := func(tok string, facts map[string]string, why string) {
+			op := "jwt.announce present=1 why=" + why + " keys=" + keysArg()
+			var ks []string
+			for k := range facts {
+				ks = append(ks, k)
+			}
+			sort.Strings(ks)
+			for _, k := range ks {
+				op += " " + k + "=" + facts[k]
+			}
+			req := &bittorrent.AnnounceRequest{InfoHash: bittorrent.InfoHashFromBytes(ih), Params: paramsStub{jwt: &tok}}
+			_, err := h.HandleAnnounce(context.Background(), req, &bittorrent.AnnounceResponse{})
+			c.Emit(op, verdict(err))
+		}
+		ts := base()
+		ts.signWith = 0
+		published = map[string]int{"k0": 0, "k1": 1}
+		publish()
+		_ = jwthook.VerifUpdateKeys(h)
+		ts.exp = "2"
+		tok, facts := mint(ts)
+		present(tok, facts, "short-lived-first")
+		present(tok, facts, "short-lived-again")
+		ts2 := base()
+		ts2.signWith = 1
+		ts2.nbf = "3"
+		tok2, facts2 := mint(ts2)
+		present(tok2, facts2, "not-yet-valid-first")
+		time.Sleep(4 * time.Second)
+		facts["exp"] = "-2"
+		present(tok, facts, "short-lived-after-expiry")
+		facts2["nbf"] = "-1"
+		present(tok2, facts2, "valid-now")
+	}
 	// scrapes are never blocked
 	_, err = h.HandleScrape(context.Background(), &bittorrent.ScrapeRequest{}, &bittorrent.ScrapeResponse{})
 	c.Emit("jwt.scrape", verdict(err))
